@@ -99,7 +99,7 @@ DEP5_GOOD = "Format: https://www.debian.org/doc/packaging-manuals/copyright-form
 
 def commands(files, has_dep5):
     target = "src/sub/b.py" if "src/sub/b.py" in files else next(iter(files))
-    cmds = [["lint"], ["lint", "--json"], ["lint", "--lines"], ["lint-file", "src/a.py", target], ["spdx"],
+    cmds = [["lint"], ["lint", "--json"], ["lint", "--lines"], ["lint-file", "src/a.py", target], ["spdx"], ["spdx", "-o", "bom.spdx"],
             ["annotate", "--copyright", "V", "--license", "MIT", "--year", "2020", target],
             ["download", "LicenseRef-verif"]]
     if has_dep5:
@@ -234,7 +234,7 @@ def dep5_doc(draw):
         data = data.replace(b"\n", b"\x00\n", 1)
     elif corrupt == "crlf":
         data = data.replace(b"\n", b"\r\n")
-    return {"gen": "dep5", "data": data, "corrupt": corrupt, "with_toml": draw(st.integers(0, 5)) == 0}
+    return {"gen": "dep5", "data": data, "corrupt": corrupt, "with_toml": draw(st.sampled_from([False, False, False, False, "root", "nested", "deep"]))}
 
 
 def check_dep5(ctx, c):
@@ -242,8 +242,9 @@ def check_dep5(ctx, c):
     files[".reuse/dep5"] = c["data"]
     cfgs = [".reuse/dep5"]
     if c["with_toml"]:
-        files["REUSE.toml"] = "version = 1\n"
-        cfgs.append("REUSE.toml")
+        where = {"root": "REUSE.toml", True: "REUSE.toml", "nested": "src/REUSE.toml", "deep": "src/sub/REUSE.toml"}[c["with_toml"]]
+        files[where] = "version = 1\n"
+        cfgs.append(where)
     out = run_all(ctx, c, files, config_paths=cfgs, expect_usage=c["with_toml"] or c["corrupt"] == "badutf8", what=f"generated dep5 ({c['corrupt']}{', with REUSE.toml' if c['with_toml'] else ''})")
     ctx.count(c, nontrivial=any(r.code != 0 for _c, r in out), labels=["gen:dep5", f"corrupt:{c['corrupt']}", f"with_toml:{c['with_toml']}"] + sorted({f"exit:{r.code}" for _c, r in out}),
               sample={"document": c["data"].decode("utf-8", "replace")})
@@ -255,6 +256,7 @@ ODD_CONTENT = [
     b"SPDX-FileCopyrightText: " + b"x" * 200000 + b"\n", b"# " + b"REUSE-IgnoreStart REUSE-IgnoreEnd " * 3000 + b"\nSPDX-SnippetBegin\n",
     b"SPDX-License-Identifier: MIT\r\n\r\n\rmixed\n", b"SPDX-License-Identifier: \xf0\x9f\x98\x80\n", b"SPDX-License-Identifier: MIT WITH\n", b"text with \xc3\x28 invalid utf8\n",
     b"# SPDX-License-Identifier: ()\nprint(1)\n", b"# SPDX-FileCopyrightText: 2020 X\n# SPDX-License-Identifier: (AND 1\n\nprint(1)\n",
+    b"# SPDX-FileCopyrightText: 2020 Jos\xe9 Garc\xeda\n# SPDX-License-Identifier: MIT\nprint(1)\n", b"# SPDX-FileContributor: Andr\xe9\n# SPDX-License-Identifier: MIT\n",
     b"SPDX-License-Identifier: a:b\n", b"SPDX-FileCopyrightText:\nSPDX-License-Identifier:\n", b"SPDX-License-Identifier: +\n",
 ]
 
